@@ -26,6 +26,7 @@ type c19Case struct {
 	Content map[string][]Tok `json:"content"`
 	Occurs  bool             `json:"occurs"`
 	Err     struct {
+		Cls   string   `json:"cls"`
 		F     string   `json:"f"`
 		I     int      `json:"i"`
 		Trace []trItem `json:"trace"`
@@ -111,6 +112,7 @@ func c19Replay(args []string) *Result {
 		}
 		sort.Strings(cs.Banned)
 		distinct[cs.Proj+"/"+strings.Join(cs.Banned, "+")] = struct{}{}
+		earlier := cs.Occurs && cs.Err.Cls != "" && cs.Err.Cls != "notallowed"
 		if selftest {
 			cs.Occurs = !cs.Occurs
 		}
@@ -126,6 +128,15 @@ func c19Replay(args []string) *Result {
 		switch {
 		case o.Res == "panic":
 			res.mismatch("c19:panic", o.Msg, replay)
+		case earlier:
+			// the project has a fault of its own that is met before the first banned directive: it stops the run first, as without the ban
+			res.count("earlier-fault")
+			if selftest {
+				break
+			}
+			if o.Res != "err" || classifyBuildErr(o.Msg) != cs.Err.Cls {
+				res.mismatch("c19:earlier-fault", fmt.Sprintf("expected the %s error met before the banned directive; code: %s %s", cs.Err.Cls, o.Res, firstLine(o.Msg)), replay)
+			}
 		case cs.Occurs:
 			if o.Res != "err" || classifyBuildErr(o.Msg) != "notallowed" {
 				res.mismatch("c19:banned-not-rejected:"+strings.Join(cs.Banned, "+"), fmt.Sprintf("banned %v occurs in the project; code: %s %s", cs.Banned, o.Res, firstLine(o.Msg)), replay)
